@@ -3,6 +3,7 @@ package p_proto
 import (
 	"bytes"
 	"fmt"
+	"github.com/holiman/uint256"
 	"math/big"
 	"net"
 	"runtime"
@@ -30,17 +31,20 @@ type radiusOp struct {
 	RSeed   uint32
 	Corrupt bool // payload truncated: must be ignored
 	NoWait  bool // do not wait for the asynchronous ping processing before the next op (back-to-back pings)
+	SeqBump bool // (scripted peers only) the message announces a newer record than the table holds; the node's request for it fails
 }
 
 type c20Plan struct {
-	Network string // "history", "state", "beacon"
-	Table   []tableNodeSpec
-	Ops     []radiusOp
-	Source  string // "none", "intable", "notintable"
-	SrcIdx  int
-	KeySeed uint32
-	Batch   int
-	NearKey bool // the content id shares its first ten bits with the local id: table nodes in the far buckets then lie at *different* log-distances from the content
+	Network     string // "history", "state", "beacon"
+	Table       []tableNodeSpec
+	Ops         []radiusOp
+	Source      string // "none", "intable", "notintable"
+	SrcIdx      int
+	KeySeed     uint32
+	Batch       int
+	Scripted    int    // 0..2 extra table nodes that are real discv5 endpoints (node indices behind the table specs); they answer FINDNODES with an empty list
+	LocalRadius uint32 // != 0: the local store advertises a radius that is no byte palindrome (the pongs the node sends must carry it as is)
+	NearKey     bool   // the content id shares its first ten bits with the local id: table nodes in the far buckets then lie at *different* log-distances from the content
 }
 
 // genC20Near: plans in which "the 32 nearest" and "the 4 closest covered" are decided by log-distance and not by
@@ -93,7 +97,14 @@ func genC20Near(t *rapid.T) c20Plan {
 		srcIdx = rapid.IntRange(0, 300).Draw(t, "srcidx")
 	}
 	return c20Plan{Network: rapid.SampledFrom([]string{"history", "state", "beacon"}).Draw(t, "net"), Table: table, Ops: ops, Source: src, SrcIdx: srcIdx,
-		KeySeed: rapid.Uint32().Draw(t, "key"), Batch: rapid.SampledFrom([]int{1, 2}).Draw(t, "batch"), NearKey: true}
+		KeySeed: rapid.Uint32().Draw(t, "key"), Batch: rapid.SampledFrom([]int{1, 2}).Draw(t, "batch"), NearKey: true, LocalRadius: genLocalRadius(t)}
+}
+
+func genLocalRadius(t *rapid.T) uint32 {
+	if rapid.Bool().Draw(t, "localRadiusMax") {
+		return 0
+	}
+	return rapid.Uint32Range(1, 1<<31).Draw(t, "localRadius")
 }
 
 func genC20(t *rapid.T) c20Plan {
@@ -101,26 +112,34 @@ func genC20(t *rapid.T) c20Plan {
 		return genC20Near(t)
 	}
 	table := genTableNodes(t, rapid.SampledFrom([]int{3, 12, 50, 272}).Draw(t, "maxN"))
+	scripted := rapid.SampledFrom([]int{0, 0, 1, 2}).Draw(t, "scripted")
+	nn := len(table) + scripted
 	nops := 0
-	if len(table) > 0 {
-		nops = rapid.IntRange(0, 3*len(table)).Draw(t, "nops")
+	if nn > 0 {
+		nops = rapid.IntRange(0, 3*nn).Draw(t, "nops")
 		if nops > 400 {
 			nops = 400
 		}
 	}
 	ops := make([]radiusOp, nops)
 	for i := range ops {
-		ops[i] = radiusOp{NodeIdx: rapid.IntRange(0, len(table)-1).Draw(t, "node"),
+		ops[i] = radiusOp{NodeIdx: rapid.IntRange(0, nn-1).Draw(t, "node"),
 			Via:     rapid.SampledFrom([]string{"ping", "pong"}).Draw(t, "via"),
 			Type:    rapid.SampledFrom([]string{"clientinfo", "clientinfo", "basic", "history", "basic", "history", "error", "unknown"}).Draw(t, "ptype"),
 			RClass:  rapid.SampledFrom([]string{"max", "zero", "cover", "cover", "cover", "nocover", "random"}).Draw(t, "rclass"),
 			RSeed:   rapid.Uint32().Draw(t, "rseed"),
 			Corrupt: rapid.IntRange(0, 11).Draw(t, "corrupt") == 0,
 			NoWait:  rapid.IntRange(0, 9).Draw(t, "nowait") == 0}
+		if scripted > 0 && rapid.IntRange(0, 2).Draw(t, "toScripted") == 0 {
+			ops[i].NodeIdx = len(table) + rapid.IntRange(0, scripted-1).Draw(t, "snode")
+		}
+		if ops[i].NodeIdx >= len(table) {
+			ops[i].SeqBump = rapid.Bool().Draw(t, "seqbump")
+		}
 	}
 	return c20Plan{Network: rapid.SampledFrom([]string{"history", "state", "beacon"}).Draw(t, "net"), Table: table, Ops: ops,
 		Source: rapid.SampledFrom([]string{"none", "intable", "covered", "covered", "notintable"}).Draw(t, "src"), SrcIdx: rapid.IntRange(0, 300).Draw(t, "srcidx"),
-		KeySeed: rapid.Uint32().Draw(t, "key"), Batch: rapid.SampledFrom([]int{1, 1, 2, 5, 64}).Draw(t, "batch")}
+		KeySeed: rapid.Uint32().Draw(t, "key"), Batch: rapid.SampledFrom([]int{1, 1, 2, 5, 64}).Draw(t, "batch"), LocalRadius: genLocalRadius(t), Scripted: scripted}
 }
 
 func leBytes(v *big.Int) []byte {
@@ -215,12 +234,43 @@ func runC20(p c20Plan, c *stats.Case) error {
 		}
 		l.Stop()
 	}()
+	if p.LocalRadius != 0 {
+		// the node's own radius as after a prune: high bits from the plan, low bits zero, not a byte palindrome
+		r := new(uint256.Int).Lsh(uint256.NewInt(uint64(p.LocalRadius)), 200)
+		if ms, ok := l.Store.(*pp.MemStore); ok {
+			ms.SetRadius(r)
+			c.Class("local-radius-not-a-palindrome")
+		}
+	}
 	self := l.Node().ID()
 	nodes := make([]*enode.Node, len(p.Table))
 	tab := l.P.VerifTable()
 	for i, s := range p.Table {
 		nodes[i] = specNode(self, i, s)
 		tab.VerifAddFoundNode(nodes[i], s.Live)
+	}
+	for i := 0; i < p.Scripted && i < 2; i++ {
+		// a table node that really exists: it answers the node's request for its record with an empty NODES list,
+		// so a record refresh triggered by a higher announced sequence number fails at once
+		sp, err := pp.NewScripted(hub, 141+i, net.IP{127, 0, 0, 1}, nextPort(), []byte{0, 1}, 300*time.Millisecond)
+		if err != nil {
+			return fmt.Errorf("harness: %v", err)
+		}
+		defer sp.Stop()
+		release := make(chan struct{})
+		defer close(release)
+		sp.Handle(proto, func(id enode.ID, addr *net.UDPAddr, msg []byte) []byte {
+			if len(msg) > 0 && msg[0] == portalwire.FINDNODES {
+				b, _ := (&portalwire.Nodes{Total: 1}).MarshalSSZ()
+				return append([]byte{portalwire.NODES}, b...)
+			}
+			// anything else (a liveness ping of the table) stays unanswered for the rest of the case, as with the
+			// table nodes that do not exist: an answer would be a radius report of its own, a refusal would evict the node
+			<-release
+			return nil
+		})
+		nodes = append(nodes, sp.Node())
+		tab.VerifAddFoundNode(sp.Node(), true)
 	}
 	c.Class("net:" + p.Network)
 
@@ -264,8 +314,15 @@ func runC20(p c20Plan, c *stats.Case) error {
 	outstanding := false
 	twice := false
 	for k, op := range p.Ops {
+		if op.NodeIdx >= len(nodes) {
+			continue
+		}
 		n := nodes[op.NodeIdx]
 		id := n.ID()
+		enrSeq := uint64(1)
+		if op.SeqBump && op.NodeIdx >= len(p.Table) {
+			enrSeq = n.Seq() + 5
+		}
 		typ, carries := supportedType(p.Network, op.Type)
 		dist := xorDist(id[:], contentID)
 		var r *big.Int
@@ -292,7 +349,7 @@ func runC20(p c20Plan, c *stats.Case) error {
 		inTable := present[id]
 		switch op.Via {
 		case "ping":
-			msg, _ := (&portalwire.Ping{EnrSeq: 1, PayloadType: typ, Payload: payload}).MarshalSSZ()
+			msg, _ := (&portalwire.Ping{EnrSeq: enrSeq, PayloadType: typ, Payload: payload}).MarshalSSZ()
 			resp := l.P.VerifHandleTalkRequest(n, &net.UDPAddr{IP: n.IP(), Port: n.UDP()}, append([]byte{portalwire.PING}, msg...))
 			if len(resp) > 0 {
 				if resp[0] != portalwire.PONG {
@@ -319,7 +376,7 @@ func runC20(p c20Plan, c *stats.Case) error {
 				inTable = present[id]
 			}
 		case "pong":
-			msg, _ := (&portalwire.Pong{EnrSeq: 1, PayloadType: typ, Payload: payload}).MarshalSSZ()
+			msg, _ := (&portalwire.Pong{EnrSeq: enrSeq, PayloadType: typ, Payload: payload}).MarshalSSZ()
 			_, _, _ = l.P.VerifProcessPong(n, append([]byte{portalwire.PONG}, msg...))
 			if !inTable {
 				refreshPresent()
@@ -329,6 +386,9 @@ func runC20(p c20Plan, c *stats.Case) error {
 		if carries && !op.Corrupt && inTable {
 			if _, had := model[id]; had {
 				twice = true
+				if enrSeq > 1 {
+					c.NT("radius-updated-by-message-announcing-newer-record")
+				}
 			}
 			model[id] = radius
 		}
